@@ -795,8 +795,7 @@ func main() {
 	}
 	stats, err := drv.ExploreAll(factory, plans, time.Now().Add(15*time.Minute))
 	if err != nil {
-		fmt.Println("INFRA:", err)
-		os.Exit(2)
+		drv.InfraExit("C18", factory, stats, err, 20000)
 	}
 	var execs int64
 	for _, st := range stats {
